@@ -53,10 +53,31 @@ PROP = {
              "(Select / SelectCount with 15 ordered column combinations, present and absent values, filters; FindByUniqueHash / "
              "FindByMultiHash with explicit and implicit index; Project / ProjectDistinct; Selection Sort / Group / GetLowerBound / "
              "GetUpperBound) against a brute-force scan. distinct_nontrivial = distinct (history, query columns, filter kind, result size) "
-             "and (history, operation, failing allocation number)."),
+             "and (history, operation, failing allocation number). Every entry point is reached through each of its spellings, chosen at random per "
+             "call (same model line, same oracle): rows made by NewRow() + operator[], NewRow(assignments...) with an item argument that is converted, "
+             "NewRow(const Row&); Add / TryAdd / AddRow / TryAddRow, Insert / TryInsert / InsertRow / TryInsertRow, Update / TryUpdate(row), the four "
+             "single-column overloads (Update / TryUpdate x Item&& / const Item&: the throwing ones answer through UniqueIndexViolation; the F9 "
+             "recognition follows all four), writes through a mutable column (GetMutable of operator[] and of MakeMutableReference; model line = update "
+             "of a column no index uses); Select / SelectCount / FindByUniqueHash / FindByMultiHash as Equalities<...>, as Equality<Item>... and as "
+             "(column == item) && ..., through the table and through a const reference (ConstSelection, ConstRowHashPointer, ConstRowHashBounds), "
+             "FindByUniqueHash(index, const Row&) with a detached row, Project / ProjectDistinct with and without filter, GetUniqueHashIndex / "
+             "GetMultiHashIndex(columns...) against the list of created indexes, lookups by a column set without index (std::logic_error, model "
+             "E:logic). Fault paths beyond allocation failures of add / insert / update: every tick of DataTraits::AccumulateHashCode / IsEqual "
+             "inside Remove / Extract throwing in turn (first 12 + 2 random: reject path of DataIndexes::RemoveRaw), a row filter of Remove(filter) "
+             "throwing at a random call and the allocations of its raw set failing, a throwing item conversion in NewRow(assignments...), every "
+             "allocation of a table copy (copy constructor with and without filter, DataTable(Selection), DataTable(ConstSelection)) failing in turn "
+             "(all of them for tables <= 80 rows, 8 random ones otherwise), allocation failures inside Project / ProjectDistinct, Selection::Group "
+             "without its hash-code array: each must throw (Group: succeed), leave rows, row numbers and every index as they were with no pending "
+             "add / remove position (shadow list + model chk line) and nothing allocated. Selections (property level, oracle = the same operation "
+             "on the list of row ids): Reverse, Sort(lessFunc) + BinarySearch, filtered copy, Remove(filter), copy / move assignment, Swap, Clear, "
+             "Reserve, SelectEmpty, range Add / Insert / Assign, GetColumnItems (DataConstItemBounds / Iterator arithmetic), iterator arithmetic of "
+             "selection and table, DataTable(Selection / ConstSelection), conversion to ConstSelection and Sort / bounds on it, rvalue Sort / Group."),
     "runtime_only": ["allocation ledger of the arena memory manager: nothing left allocated / no bad deallocation after each history (C03 piggyback)"],
     "not_modelled": ["bucket layout of the index hash tables (HashSet<Raw*>, HashMultiMap<Raw*,Raw*>): abstracted to 'a lookup visits every entry inserted under that hash code'; "
                      "therefore the model does not predict when finding F9 strikes - the harness recognises the pattern, reports known-F9 and rebuilds the table",
                      "order of rows with equal keys after Selection::Sort / inside Group (std::sort / HashSorter: C17)",
-                     "Reserve, capacity of mRaws, version counters (C15), DataRow life cycle (C19), mutable columns"],
+                     "Reserve, capacity of mRaws, version counters (C15), DataRow life cycle (C19)",
+                     "selection objects (Reverse, Sort(lessFunc), BinarySearch, Remove(filter), range Add / Insert / Assign, copies, DataTable(Selection)), "
+                     "throwing hash / filter / item conversion and failed copies: property level only (the model line after each failed operation is `chk`: "
+                     "state unchanged)"],
 }
